@@ -1,4 +1,5 @@
 """C20 — template autoescaping never emits unescaped data (tornado.template + escape.xhtml_escape)."""
+import enum
 import re
 from core.wire import atom, line, parse_reply, Atom
 from props import c19
@@ -9,7 +10,7 @@ _T = "TornadoModel.C20."
 THEOREMS = [_T + n for n in [
     "expr_uses_owner_file_autoescape", "genO_expr", "genO_include", "only_raw_escapes_the_filter",
     "safe_escape", "escaped_output_safe", "unescaped_only_if_raw_or_none", "interp_expr", "autoescape_file_local",
-    "utf8_escape_comm",
+    "utf8_escape_comm", "expr_bytes_type_blind", "number_not_exempt",
 ]]
 TRUSTED = [
     "html.escape (via escape.xhtml_escape) replaces exactly & < > \" ' — modelled as xhtmlEscape and compared on every "
@@ -19,11 +20,16 @@ TRUSTED = [
 ASSUMPTIONS = [
     "escaping autoescape functions are the two of the default namespace (xhtml_escape, escape); user-supplied functions "
     "are outside the property",
-    "values: str, bytes (valid UTF-8), int, None, bool, objects with arbitrary __str__; str() of other containers is not modelled",
+    "values: str, bytes (valid UTF-8), int, None, bool, objects with arbitrary __str__, and (VALUE_KINDS) subclasses of int / "
+    "float / IntEnum / IntFlag with their own __str__ or __repr__, plain floats, list/tuple/dict holding markup, subclasses of "
+    "str / bytes with a hostile __str__.  The generated code has one path for everything that is not str/bytes (str(), then the "
+    "escape function): on the wire such a value is the model's `obj` given by the text str() returns (a str/bytes subclass is "
+    "its content); values that are falsy although the model's `obj` is truthy (0, 0.0) are used in expression tags only",
     "same loader/template domain as C19 (DictLoader, flat names, acyclic include/extends, extends at top level only)",
 ]
 RULE = ("loaders whose parent/child/included files carry different autoescape settings (loader default, directive, None), "
-        "expression values from an adversarial pool (markup strings/bytes, objects whose __str__ returns markup, ints, None); "
+        "expression values from an adversarial pool (markup strings/bytes, objects whose __str__ returns markup, ints, None, "
+        "int/float/IntEnum/IntFlag subclasses whose __str__/__repr__ returns markup, floats, containers, str/bytes subclasses); "
         "`strict` loaders (only escaping settings, no raw/module) must produce output without < > \" ' and with & only in the "
         "five entities; in `mixed` loaders the variable `adv` occurs only in expression tags of escaping files and its raw "
         "value must not occur in the output; every output is compared with the owner-based interpretation; "
@@ -31,7 +37,8 @@ RULE = ("loaders whose parent/child/included files carry different autoescape se
 EXHAUSTIVE = {"quick": False, "thorough": False}
 CLAUSES = {
     "the output of every expression tag contains the value only in escaped form, whatever its type or content":
-        "escaped_output_safe, safe_escape, utf8_escape_comm, interp_expr",
+        "escaped_output_safe, safe_escape, utf8_escape_comm, interp_expr, expr_bytes_type_blind, number_not_exempt "
+        "(no type other than str/bytes has a path of its own: numbers and their subclasses go through str() + escape)",
     "including inside included, inherited and applied blocks": "expr_uses_owner_file_autoescape (gen = genO), genO_include",
     "only raw tags, modules and an explicit autoescape None emit values unescaped":
         "only_raw_escapes_the_filter, unescaped_only_if_raw_or_none",
@@ -43,14 +50,116 @@ CASE_TIMEOUT = 20
 ADV_VALUES = [
     ["s", "<adv1 a=\"1\" b='2'>&amp;</adv1>"], ["b", "<adv2>&\"'é"], ["o", "<adv3 onload='x'>"], ["s", "'\"><adv4>"],
     ["s", "&lt;<adv5>"], ["o", "<adv6>\U0001f600&"], ["b", "\"<adv7>'"], ["s", "<adv8>\n<adv8>"],
+    # "whatever its type": values that ARE numbers (isinstance int/float) but whose text is arbitrary
+    ["qi", "<adv9 src=x onerror='y'>"], ["qf", "9.50<advA>\"&"], ["en", "<advB>"], ["qr", "<advC r=\"1\">&"],
+    ["fl", "<advD>'"], ["q0", "<advE>&amp;"], ["qz", "<advF>"], ["qs", "<advG>&s"], ["qy", "\"<advH>'b"],
+    ["ls", "<advI>"], ["tp", "<advJ>&"], ["dt", "<advK>"],
 ]
 POOL_VARIANTS = [
     [["sx", "s", "<script>alert('x')</script>"], ["sy", "s", "a&b"], ["bz", "b", "<b>\"q\"</b>&"], ["ob", "o", "<o '\">"]],
     [["sx", "s", "'\"'\"<<>>&&"], ["sy", "o", "<img src=x onerror=\"y\">"], ["bz", "b", "&amp;<é>"], ["ob", "o", ""]],
     [["sx", "b", "<x>"], ["sy", "s", "&#x27;&quot;"], ["bz", "b", "'"], ["ob", "o", "\"&<>'"], ["n5", "i", 10 ** 20], ["nn", "n", None]],
+    # numbers with a text of their own (all truthy, like the model's `obj`), also as loop items
+    [["sx", "qs", "<x>&"], ["sy", "qi", "<img src=x onerror=\"y\">"], ["bz", "qy", "<b>'"], ["ob", "en", "<o '\">"], ["n5", "qf", "5<n5>"],
+     ["nm", "qr", "-12<nm>&"], ["l3", "l", [["qi", "<l1>"], ["s", "a<"], ["en", "'l3'"]]]],
+    [["sx", "s", "plain"], ["sy", "fl", "<fl>&"], ["ob", "qr", "\"&<>'"], ["n5", "f", 5.5], ["nm", "qf", "<nm>"], ["bz", "b", "<b>"],
+     ["l3", "l", [["qf", "\"l1\""], ["ls", "<l2>"], ["f", -0.5]]], ["li", "l", [["qr", "<li>"], ["i", 2]]]],
 ]
 SAFE_TEXT = ["a", "b", " ", "\n", "  ", "é", "漢", "{", "}", "!", "%", "#", "\\", "word", ";", "lt;", "amp", "\t", "\xa0"]
 ESC = ["xhtml_escape", "escape"]
+
+
+# ------------------------------------------------------------------------------------------------- value kinds
+STR_HOOK = "<strhook '\">"        # what __str__ of the str/bytes subclasses returns; must never reach the output
+
+
+class QInt(int):
+    """a number that formats itself (Quantity(3, 'kg')): isinstance(v, int), str(v) arbitrary"""
+    def __new__(cls, n, text):
+        self = int.__new__(cls, n)
+        self.text = text
+        return self
+
+    def __str__(self):
+        return self.text
+
+
+class QIntRepr(int):
+    """only __repr__ is overridden: str() of an int subclass falls back to it"""
+    def __new__(cls, n, text):
+        self = int.__new__(cls, n)
+        self.text = text
+        return self
+
+    def __repr__(self):
+        return self.text
+
+
+class QFloat(float):
+    def __new__(cls, x, text):
+        self = float.__new__(cls, x)
+        self.text = text
+        return self
+
+    def __str__(self):
+        return self.text
+
+
+class QStr(str):
+    """the generated code encodes the CONTENT of a str (subclass); __str__ is not consulted"""
+    def __str__(self):
+        return STR_HOOK
+
+
+class QBytes(bytes):
+    def __str__(self):
+        return STR_HOOK
+
+
+def _enum_member(base, text):
+    cls = base("Lvl", {"HIGH": 2})
+    cls.__str__ = lambda self: text
+    return cls.HIGH
+
+
+# kind -> python value of the text `v` (for "f": the number itself)
+VALUE_KINDS = {
+    "qi": lambda v: QInt(3, v), "q0": lambda v: QInt(0, v), "qr": lambda v: QIntRepr(7, v),
+    "qf": lambda v: QFloat(9.5, v), "qz": lambda v: QFloat(0.0, v),
+    "en": lambda v: _enum_member(enum.IntEnum, v), "fl": lambda v: _enum_member(enum.IntFlag, v),
+    "qs": lambda v: QStr(v), "qy": lambda v: QBytes(v.encode("utf-8")),
+    "f": lambda v: float(v), "ls": lambda v: [v, 1], "tp": lambda v: (v,), "dt": lambda v: {v: v},
+}
+
+
+def _py_atom(t, v):
+    """-> (type, value) understood by c19.env_kwargs; its type `s` hands the value over unchanged"""
+    return ["s", VALUE_KINDS[t](v)] if t in VALUE_KINDS else [t, v]
+
+
+def _wire_atom(t, v):
+    """the model's view: a str/bytes subclass is its content, everything else that is not str/bytes is an `obj` with
+    the text str() returns (the generated code: `else: _tt_tmp = _tt_utf8(str(_tt_tmp))`)"""
+    if t == "qs":
+        return ["s", v]
+    if t == "qy":
+        return ["b", v]
+    if t in VALUE_KINDS:
+        return ["o", str(VALUE_KINDS[t](v))]
+    return [t, v]
+
+
+def py_env(env):
+    return [[n, "l", [_py_atom(a, b) for a, b in v]] if t == "l" else [n] + _py_atom(t, v) for n, t, v in env]
+
+
+def wire_env(env):
+    return [[n, "l", [_wire_atom(a, b) for a, b in v]] if t == "l" else [n] + _wire_atom(t, v) for n, t, v in env]
+
+
+EXPR_VALUES = (ADV_VALUES + [[e[1], e[2]] for p in POOL_VARIANTS for e in p if e[1] != "l" and isinstance(e[2], str)]
+               + [["i", -7], ["i", 0], ["n", None], ["t", True], ["t", False], ["f", 1.5], ["f", -0.0], ["f", 1e100],
+                  ["qi", "3 <b>kg</b>"], ["qf", "9.50<script>alert(2)</script>"], ["en", "<HIGH>"], ["qr", "Q('\"')"], ["qi", ""], ["qs", ""]])
 
 
 def make_env(rng):
@@ -154,10 +263,17 @@ def gen_loader(rng, strict):
 
 def gen_cases(rng, tier):
     n = {"quick": 1300, "thorough": 30000, "search": 2000}[tier]
+    # systematic: every value kind x every autoescape setting x raw/not raw, as a single expression tag
+    for t, v in EXPR_VALUES:
+        for ae in ["xhtml_escape", "escape", None, "ident"]:
+            for raw in (False, True):
+                yield {"kind": "expr", "ae": ae, "raw": raw, "type": t, "value": v}
     for _ in range(n):
         k = rng.random()
         if k < 0.12:
-            t, v = rng.choice(ADV_VALUES + [[e[1], e[2]] for p in POOL_VARIANTS for e in p if e[1] in "sbo"] + [["i", -7], ["n", None], ["t", True]])
+            t, v = rng.choice(EXPR_VALUES)
+            if isinstance(v, str) and rng.random() < 0.5:
+                v = v + "".join(rng.choice(["<", ">", "&", "\"", "'", "&amp;", "a", " ", "é", "&#x27;", "</script>"]) for _ in range(rng.randint(1, 4)))
             yield {"kind": "expr", "ae": rng.choice(["xhtml_escape", "escape", None, "ident"]), "raw": rng.random() < 0.3, "type": t, "value": v}
             continue
         strict = k < 0.5
@@ -182,17 +298,18 @@ def run_impl(case):
         src = ("{% raw v %}" if case["raw"] else "{{ v }}")
         try:
             t = Template(src, autoescape=case["ae"])
-            kw = c19.env_kwargs([["v", case["type"], case["value"]]])
+            kw = c19.env_kwargs(py_env([["v", case["type"], case["value"]]]))
             return {"render": ["out", t.generate(**kw).hex()]}
         except Exception as e:
             return {"render": ["Raised", type(e).__name__]}
-    return c19.run_template(case, env=case["env"])
+    return c19.run_template(case, env=py_env(case["env"]))
 
 
 def model_requests(case, impl):
     if case["kind"] == "expr":
-        v = atom(bool(case["value"])) if case["type"] == "t" else case["value"]
-        return [line(ID, "exprbytes", case["ae"], atom(case["raw"]), atom(case["type"]), v)]
+        t, v = _wire_atom(case["type"], case["value"])
+        v = atom(bool(v)) if t == "t" else v
+        return [line(ID, "exprbytes", case["ae"], atom(case["raw"]), atom(t), v)]
     a = (case["ws"], case["ae"], case["entry"], case["files"])
     return [line(ID, "compile", *a), line(ID, "compileO", *a)]
 
@@ -222,7 +339,7 @@ def spec_requests(case, impl):
         return []
     if case.get("may_reject") and impl["compile"][0] == "ParseError":
         return []
-    reqs = [line(ID, "render", case["ws"], case["ae"], case["entry"], case["files"], c19.env_wire(case["env"]))]
+    reqs = [line(ID, "render", case["ws"], case["ae"], case["entry"], case["files"], c19.env_wire(wire_env(case["env"])))]
     if impl["render"][0] == "out":
         reqs.append(line(ID, "safe", bytes.fromhex(impl["render"][1])))
     return reqs
@@ -230,7 +347,7 @@ def spec_requests(case, impl):
 
 def _adv_marker(case):
     v = [e for e in case["env"] if e[0] == "adv"][0][2]
-    m = re.search(r"<adv\d", v)
+    m = re.search(r"<adv\w", v)
     return m.group(0).encode()
 
 
@@ -241,7 +358,9 @@ def spec_violation(case, impl, replies):
         if out[0] != "out":
             return "expression tag raised %s" % out[1]
         if escaping and c19.norm_reply(replies[0])[0] != "T":
-            return "escaped expression output is not safe: %r" % bytes.fromhex(out[1])[:200]
+            return "escaped expression output is not safe (value kind %s): %r" % (case["type"], bytes.fromhex(out[1])[:200])
+        if STR_HOOK.encode() in bytes.fromhex(out[1]):
+            return "__str__ of a str/bytes subclass reached the output: %r" % bytes.fromhex(out[1])[:200]
         return None
     c = impl["compile"]
     if case.get("may_reject") and c[0] == "ParseError":
@@ -254,6 +373,8 @@ def spec_violation(case, impl, replies):
         out = bytes.fromhex(got[1])
         if case["strict"] and c19.norm_reply(replies[1])[0] != "T":
             return "strict loader (every file escapes, no raw): output contains unescaped markup: %r" % _unsafe_excerpt(out)
+        if STR_HOOK.encode() in out:
+            return "__str__ of a str/bytes subclass reached the output: %r" % _around(out, STR_HOOK.encode())
         if case["uses_adv"] or True:
             if _adv_marker(case) in out:
                 return "the raw value of `adv` (used only in expression tags of escaping files) occurs in the output: %r" % _around(out, _adv_marker(case))
@@ -285,6 +406,10 @@ def stats(case, impl):
         return ["kind:expr", "expr:%s:%s:%s" % (case["ae"], "raw" if case["raw"] else "esc", case["type"])]
     out = ["kind:" + ("strict" if case["strict"] else "mixed"), "files:%d" % len(case["files"]),
            "settings:%d" % len(set(map(str, case["settings"].values()))), "adv:%s" % case["uses_adv"]]
+    advt = [e[1] for e in case["env"] if e[0] == "adv"][0]
+    out.append("advkind:" + advt)
+    if any(e[1] in VALUE_KINDS or (e[1] == "l" and any(a in VALUE_KINDS for a, _ in e[2])) for e in case["env"] if e[0] != "adv"):
+        out.append("pool:number-subclasses")
     if "render" in impl:
         out.append("render:" + (impl["render"][0] if impl["render"][0] == "out" else impl["render"][1]))
     for f in case.get("feat", []):
@@ -294,11 +419,13 @@ def stats(case, impl):
 
 def signature(case, impl, why):
     if case["kind"] == "expr":
-        return "expr/%s/%s" % (case["ae"], "unsafe" if "not safe" in why else "raised")
+        return "expr/%s/%s" % (case["ae"], "unsafe" if "not safe" in why else "strhook" if "__str__ of a str" in why else "raised")
     if case.get("may_reject") and ("strict loader" in why or "raw value" in why):
         return "strict/" + case["may_reject"]
     if "strict loader" in why:
         return "strict/unescaped-markup"
+    if "__str__ of a str" in why:
+        return "strhook-in-output"
     if "raw value of `adv`" in why:
         return "mixed/adv-unescaped"
     if "failed to compile" in why:
